@@ -220,6 +220,20 @@ func DrawCall(t *rapid.T, w *W, label string) Call {
 			}
 		}
 		c.Client = cands[rapid.IntRange(0, len(cands)-1).Draw(t, label+".client")]
+	} else if g == 2 {
+		// a matching pair of a typed server feature and a client of that type, asked for as the type Generic:
+		// the server feature does not have the requested type (only a feature that IS Generic stands for any type)
+		si := rapid.IntRange(0, len(w.Servers)-1).Draw(t, label+".server")
+		c.Server, c.Type = ServerRefs[si], model.FeatureTypeTypeGeneric
+		var cands []Ref
+		for _, e := range PeerEntities() {
+			for _, f := range e.Feats {
+				if f.Type == w.Servers[si].Type && f.Role == model.RoleTypeClient {
+					cands = append(cands, Ref{e.Addr, f.ID})
+				}
+			}
+		}
+		c.Client = cands[rapid.IntRange(0, len(cands)-1).Draw(t, label+".client")]
 	} else if g == 1 {
 		// the Generic client feature on a typed server feature
 		si := rapid.IntRange(0, len(w.Servers)-1).Draw(t, label+".server")
